@@ -7,16 +7,3 @@ NOTES = ('All checks: ./check <id> [--tier quick|thorough]; VERIF_SEED / VERIF_T
 
 NOT_APPLICABLE = {}
 
-LEVEL = {
-    'C19': {
-        'text': 'Machine-checked proof (Coq) over executable models of every encoder/decoder: round trip and order embedding for all int64, '
-                'all float64 bit patterns (IEEE identity), all byte strings, uint64, float32 vectors and edge lists of any length, node/point/'
-                'document/term keys incl. family disjointness, and exactness of range/prefix scans for both store backends on any sorted bucket. '
-                'The layout constants and xor masks are regenerated from the Go sources on every run (translator) and the theorems re-checked; '
-                'the models are compared with the real functions on boundary pools + random values and on real bbolt/memstore scans.',
-        'design_ref': 'DESIGN.md 4.19',
-        'note': 'Trusted: Coq kernel; the models Model_C19.v/KV.v (tied by the correspondence run); gen_key_layout.py; bbolt cursor order = byte order '
-                '(validated by scans, not proved); sign-magnitude order on bit patterns is taken as IEEE order on non-NaN doubles.',
-        'technique': 'Coq proof (round-trip / order-embedding theorems over generated constants) + differential correspondence run',
-    },
-}
